@@ -23,10 +23,12 @@ type lineRec struct {
 func C15(ctx *Ctx) {
 	R := ctx.R
 	R.Explanation = "record: every emit helper is interpreted in the listing cells; the record it appends has the helper's own line type, byteCount = the number of bytes it hands to the writer, and address = the address before the advance. Both listing writers are interpreted for an arbitrary record (loop-carried state unknown) with the formatter calls recorded as guarded render events: in the arm of line type T the bytes rendered are code[address-base + j] for j = 0..K_T-1, each once and in order, where K_T is what the helpers record for T; the data-block arm ranges over code[offs : offs+byteCount]; the text writer shows the record's own address. db-chunk: EmitBytes, interpreted for an arbitrary iteration, appends data-block records whose byteCount is 16 inside the chunking branch and at most 15 (= len&15) for the remainder. pure: the mod-sets of the two writers contain no Emitter field."
-	R.Trusted = []string{"go/packages + go/ssa", "absint (arbitrary-iteration mode)", "xbuf.B methods append what they are given", "records partition the buffer over whole call histories only if helpers are the sole source of records (C19/order)"}
+	R.Trusted = []string{"go/packages + go/ssa", "absint (arbitrary-iteration mode)", "strconv.AppendInt formats as documented", "records partition the buffer over whole call histories only if helpers are the sole source of records (C19/order)"}
 	R.Rule("record", "each helper records (its line type, byteCount = bytes emitted, address before the advance); each writer arm renders exactly code[address-base .. +K) of its line type, once, in order; the text writer shows the record's address")
 	R.Rule("db-chunk", "every data-block record appended by EmitBytes describes at most the 16 bytes of its own line (16 for full lines, len&15 for the last)")
+	R.Rule("db-address", "the data-block record starts at the emitter's address and is re-addressed only after a full line ending at byte i, to entry address + i + 1; so line k of a data block starts at entry address + 16k")
 	R.Rule("pure", "WriteTextTo / WriteHexTo modify no field of the Emitter")
+	checkXbuf(ctx)
 	ems, roles := emitAll(ctx)
 	if len(roles.Err) > 0 {
 		for _, e := range roles.Err {
@@ -145,7 +147,7 @@ func C15(ctx *Ctx) {
 		checkListingWriter(ctx, roles, fn, byType, lineS, fType, fAddr, fCount)
 	}
 	// ---- EmitBytes chunks
-	checkDbChunks(ctx, roles, lineS, fType, fCount)
+	checkDbChunks(ctx, roles, lineS, fType, fAddr, fCount)
 }
 
 type renderedByte struct {
@@ -326,7 +328,7 @@ func checkListingWriter(ctx *Ctx, roles *EmitterRoles, fn *ssa.Function, byType 
 	R.Count("writer-arms", len(arms))
 }
 
-func checkDbChunks(ctx *Ctx, roles *EmitterRoles, lineS *types.Struct, fType, fCount int) {
+func checkDbChunks(ctx *Ctx, roles *EmitterRoles, lineS *types.Struct, fType, fAddr, fCount int) {
 	R := ctx.R
 	fn := ctx.Prog.Method("asm", "Emitter", "EmitBytes")
 	if fn == nil {
@@ -335,6 +337,7 @@ func checkDbChunks(ctx *Ctx, roles *EmitterRoles, lineS *types.Struct, fType, fC
 	}
 	pos := ctx.Prog.Pos(fn.Pos())
 	ip := absint.New()
+	ip.TraceStores = true
 	var recv *absint.Ptr
 	S := roles.Struct
 	_, out := ip.CallFix(fn, func() ([]absint.Val, *absint.State) {
@@ -356,6 +359,77 @@ func checkDbChunks(ctx *Ctx, roles *EmitterRoles, lineS *types.Struct, fType, fC
 		return
 	}
 	loops := loopsOf(fn)
+	// db-address: the record variable starts at the emitter's address; inside the loop
+	// it is re-addressed only when a full line has just been appended (i&15 == 15), to
+	// entry address + i + 1. By induction line k starts at entry address + 16k.
+	entryAddr := ip.Load(&absint.State{Heap: absint.NewHeap(nil)}, fieldPtr(recv, S.Field(roles.Address).Type(), roles.Address), S.Field(roles.Address).Type())
+	ea, _ := entryAddr.(*absint.Int)
+	nFirst, nNext := 0, 0
+	for _, se := range ip.Stores {
+		if se.Fn != fn || se.Obj == nil || se.Obj.Kind != absint.ObjFresh || len(se.Path) != 1 || se.Path[0].Field != fAddr {
+			continue
+		}
+		if st, ok := se.Obj.T.Underlying().(*types.Struct); !ok || st != lineS {
+			continue
+		}
+		p := ctx.Prog.Pos(se.Pos)
+		v, _ := se.V.(*absint.Int)
+		if v == nil || ea == nil {
+			R.Fail("db-address", "EmitBytes:line-address", p, "record address is not an integer")
+			continue
+		}
+		// which loop guards are in force
+		var idx *absint.Int
+		for _, g := range se.GuardL {
+			if g.Cmp != nil && g.Cmp.Op == "<" && g.Outcome {
+				if y, ok := g.Cmp.Y.(*absint.Int); ok && y.Lin != nil && y.Lin.Key() == "0+len(b)" {
+					if x, ok := g.Cmp.X.(*absint.Int); ok && x.Lin != nil && strings.HasSuffix(x.Lin.Key(), "rangeindex") && strings.HasPrefix(x.Lin.Key(), "1+loopvar:") {
+						idx = x
+					}
+				}
+			}
+		}
+		if idx == nil {
+			// before the loop (or after it)
+			inLoop := false
+			for _, g := range se.GuardL {
+				if strings.Contains(g.Key, "loopvar:") {
+					inLoop = true
+				}
+			}
+			if inLoop {
+				R.Fail("db-address", "EmitBytes:next-line", p, "the record is re-addressed in a loop position the rule cannot place: "+trunc(fmtVal(v)))
+				continue
+			}
+			nFirst++
+			if v.Lin == nil || v.Lin.Key() != ea.Lin.Key() {
+				R.Fail("db-address", "EmitBytes:first-line", p, fmt.Sprintf("the first data line records address %s, want the emitter's address %s", trunc(fmtVal(v)), ea.Lin.Key()))
+			} else {
+				R.Pass("db-address", "EmitBytes:first-line", p, "address = "+ea.Lin.Key())
+			}
+			continue
+		}
+		nNext++
+		chunkKey := "(0+and(" + idx.Lin.Key() + ",f)==f)"
+		full := false
+		for _, g := range se.GuardL {
+			if g.Key == chunkKey && g.Outcome {
+				full = true
+			}
+		}
+		want := ip.Ops.Add(ip.Ops.Add(ea, ip.Ops.Convert(idx, 32, true, false)), absint.NewConst(32, 1, false))
+		switch {
+		case !full:
+			R.Fail("db-address", "EmitBytes:next-line", p, "the record is re-addressed at a byte that does not complete a line of 16")
+		case v.Lin == nil || want.Lin == nil || v.Lin.Key() != want.Lin.Key():
+			R.Fail("db-address", "EmitBytes:next-line", p, fmt.Sprintf("after the line ending at byte i the next line records address %s, want %s (entry address + i + 1)", trunc(fmtVal(v)), want.Lin.Key()))
+		default:
+			R.Pass("db-address", "EmitBytes:next-line", p, "after a full line ending at byte i: address = entry address + i + 1 = "+want.Lin.Key())
+		}
+	}
+	if nFirst == 0 || nNext == 0 {
+		R.Fail("db-address", "EmitBytes:stores", pos, fmt.Sprintf("found %d initial and %d in-loop assignments of the data record's address, want at least one of each", nFirst, nNext))
+	}
 	n := 0
 	for _, ev := range ip.Events {
 		if ev.Kind != "append" || len(ev.Args) != 2 || ev.Fn != fn {
